@@ -137,6 +137,7 @@ def plans(prop, tier):
             P.append((k, True, 'exc', 4, ()))
             P.append((k, True, 'exc', 4, (), 'nowait'))        # the worker dies on its own; a consumer only reads the stream
             P.append((k, True, 'ret', 2, ('pause', 'sigkill') if k != 'thread' else ('pause',), 'blocked'))
+            P.append((k, True, 'ret', 2, ('pause', 'sigkill') if k != 'thread' else ('pause',), 'poolstyle'))   # as a Pool consumes it
         # the parent-side forwarding thread paused at its line events while the backend is SIGKILLed
         P.append(('remote', True, 'ret', 2, ('fpause',), 'blocked'))
     elif prop == 'C16':
